@@ -392,7 +392,8 @@ def opCliMulti : Rd String := do
     let pcfg : PCfg :=
       { regexValid := fun s => (lookup2 valid s).getD dflt, fromChar := ColT.fromCharDefault }
     let rm := fun re t => (lookupPair rmatches re t).getD dflt
-    let E := dbEnv db (substFn [] []) rm
+    -- the CLI binds `__DATABASE__` to the `--db` value (default `postgres`) in every mode
+    let E := dbEnv db (substFn [(kw "__DATABASE__", kw "postgres")] []) rm
     let cfg : RCfg := { labels := labels, strictCols := strict }
     let uc : UCfg := { sep := sep, strictCols := strict, regexMatch := rm }
     -- state threaded through the roots: files, trace so far, per-root status; `none` = unsupported
